@@ -83,8 +83,16 @@ package types
 //@   requires bd != nil && source != nil && source.off <= uint64(len(source.s))
 //@   modifies *bd, source.off, elems(bd.Bookkeepers), elems(bd.SigData)
 //@   ensures source.off <= uint64(len(source.s))
-//@   loop 1 invariant 0 <= i && source.off <= uint64(len(source.s))
-//@   loop 2 invariant 0 <= i && source.off <= uint64(len(source.s))
+//@   -- the count prefixes are honoured: as many keys and signatures are decoded as announced (a count of 2^63 and more is
+//@   -- negative as an int and would skip the loop: "zero elements, no error")
+//@   ghost var gn uint64 = 0
+//@   ghost var gm uint64 = 0
+//@   set after "n, eof := source.NextVarUint()" : gn := n
+//@   set after "m, eof := source.NextVarUint()" : gm := m
+//@   snapshot s1 after "err := bd.deserializationUnsigned(source)"
+//@   assert[c02-counts-honoured] after loop 2 : uint64(len(bd.Bookkeepers)) == uint64(at(s1, len(bd.Bookkeepers))) + gn && uint64(len(bd.SigData)) == uint64(at(s1, len(bd.SigData))) + gm
+//@   loop 1 invariant 0 <= i && i <= int(n) && int(n) >= 0 && source.off <= uint64(len(source.s)) && len(bd.Bookkeepers) == at(s1, len(bd.Bookkeepers)) + i && len(bd.SigData) == at(s1, len(bd.SigData))
+//@   loop 2 invariant 0 <= i && i <= int(m) && int(m) >= 0 && source.off <= uint64(len(source.s)) && len(bd.SigData) == at(s1, len(bd.SigData)) + i && uint64(len(bd.Bookkeepers)) == uint64(at(s1, len(bd.Bookkeepers))) + gn
 
 // a decoded block never repeats a transaction, and its transactions are the ones the header's root commits to
 //@ func (*Block).Deserialization
